@@ -22,8 +22,8 @@ DQ = ['"x"', '"[a]"', '"a b"', '"^r.*"', '"%.2f"', '"it\'s"', '"(p)"', '""']
 SQ = ["'x'", "'[a]'", "'y z'", "'A'", "'a)b'"]
 BQ = ["`2020-01-01`", "`[d]`", "`2004-01-01T00:00:00`", "`a(`", "`x)`", "`(p)`", "`it's`"]
 # unbalanced parentheses / quote characters inside strings: the string builders scan for parentheses
-DQ_EXTRA = ['"a("', '")"', '"`"']
-SQ_EXTRA = ["'('", "'x)'"]
+DQ_EXTRA = ['"a("', '")"', '"`"', '"a\x0cb"', '"x\u2028y"', '"n\x85l"', '"t\tab"']   # (+ characters str.splitlines() / strip() treat as breaks)
+SQ_EXTRA = ["'('", "'x)'", "'v\x0bt'", "'p\u2029s'"]
 
 AVOID = {"percent": True}
 EXCLUDED = {}
